@@ -255,7 +255,14 @@ _SHARED_SEED_PROGRAMS: dict = {}
 
 def run_one(algo: str, rep_name: str, gname: str, seed: int, budget: int, own_tracker: bool = False, shared_rep: bool = False,
             shared_grammar: bool = False):
-    considered, start = GRAMMARS["full" if gname == "usable" else gname]
+    if gname == "synthetic":
+        # the library's own generator of benchmark grammars: "a random grammar, based on a particular seed" (new classes on every call)
+        from geneticengine.grammar.synthetic_grammar import create_arbitrary_grammar
+        considered, start = create_arbitrary_grammar(seed=5, non_terminals_count=4, recursive_non_terminals_count=2,
+                                                     productions_per_non_terminal=lambda rd: 3, non_terminals_per_production=lambda rd: 2,
+                                                     base_types={int})
+    else:
+        considered, start = GRAMMARS["full" if gname == "usable" else gname]
     if shared_grammar:
         # ONE grammar object serves several searches (extracted once, as a user's script does)
         g = _SHARED_GRAMMARS.setdefault(gname, extract_grammar(considered, start))
